@@ -8,6 +8,8 @@ class C17(CalibCheck):
     title = {"C17": "Calibration expansion is a complete, faithful substitution", "C18": "Calibration expansion always terminates without crashing",
              "C19": "The calibration source map exactly accounts for every expansion"}["C17"]
 
+    quick_bodies = QUICK_BODIES + ("kinds",)          # C17 only: substitution has to reach every instruction kind
+
     def canary(self, runner, tier):
         case = {"program": "DEFCAL RX v:\n\tFENCE v\nDEFCAL RY 0:\n\tRY 0\nRX 0"}
         obs, raw = self.native(runner, case)
